@@ -589,6 +589,9 @@ def run(ctx):
         ctx.inconclusive_because('the live reader never polled')
     if ctx.counters.get('injected_interrupts', 0) == 0:
         ctx.inconclusive_because('no interrupt was injected')
+    if ctx.counters.get('injected_interrupts_anywhere', 0) == 0:
+        ctx.inconclusive_because('no interrupt was injected outside a '
+                                 'rewrite of the output file')
 
 
 def replay(data):
